@@ -39,18 +39,38 @@ end RF
 namespace Bnd
 
 theorem mul_okAt (u v : Bnd) (g1 g2 : Int) (hu : u.okAt g1) (hv : v.okAt g2) : (u.mul v).okAt (g1 + g2) := by
+  have hz : (Bnd.fin (RF.ofInt 0)).okAt (g1 + g2) := Or.inl rfl
   cases u with
-  | nan => trivial
+  | nan =>
+    cases v with
+    | fin q => simp only [Bnd.mul]; split <;> first | exact hz | trivial
+    | inf t => trivial
+    | nan => trivial
   | inf s =>
     cases v with
-    | fin q => simp only [Bnd.mul]; split <;> trivial
+    | fin q => simp only [Bnd.mul]; split <;> first | exact hz | trivial
     | inf t => trivial
     | nan => trivial
   | fin p =>
     cases v with
     | fin q => exact (mul_sc p q g1 g2 hu hv).1
-    | inf t => simp only [Bnd.mul]; split <;> trivial
-    | nan => trivial
+    | inf t => simp only [Bnd.mul]; split <;> first | exact hz | trivial
+    | nan => simp only [Bnd.mul]; split <;> first | exact hz | trivial
+
+/-- the repaired bound product of two proper bounds is never `nan` -/
+theorem mul_ne_nan (u v : Bnd) (hu : u ≠ .nan) (hv : v ≠ .nan) : u.mul v ≠ .nan := by
+  cases u with
+  | nan => exact absurd rfl hu
+  | inf s =>
+    cases v with
+    | nan => exact absurd rfl hv
+    | inf t => simp [Bnd.mul]
+    | fin q => simp only [Bnd.mul]; split <;> simp
+  | fin p =>
+    cases v with
+    | nan => exact absurd rfl hv
+    | inf t => simp only [Bnd.mul]; split <;> simp
+    | fin q => simp [Bnd.mul]
 
 /-- positive × positive: the product of the upper bounds is an upper bound (and not `nan`) -/
 theorem mul_ub_pp (u v : Bnd) (g1 g2 X Y : Int) (hu : u.okAt g1) (hv : v.okAt g2) (hX : 0 < X) (hY : 0 < Y)
@@ -169,22 +189,22 @@ theorem NonNeg.sc {q : RF} (h : NonNeg (.fin q)) (g : Int) : 0 ≤ q.sc g := by
       · rw [sc_zero _ g hc]; omega
       · have := sc_pos q g hc hs; omega
 
-/-- (upper bound of a positive value) × (a non-negative upper bound), if not `nan`, is above every `Z ≤ 0` -/
+/-- (upper bound of a positive value) × (a non-negative upper bound) is above every `Z ≤ 0` -/
 theorem mul_ub_nonneg_left (u v : Bnd) (g1 g2 X Z : Int) (hu : u.okAt g1) (hv : v.okAt g2) (hX : 0 < X)
-    (h1 : u.ub g1 X) (hvn : NonNeg v) (hn : u.mul v ≠ .nan) (hZ : Z ≤ 0) : (u.mul v).ub (g1 + g2) Z := by
+    (h1 : u.ub g1 X) (hvn : NonNeg v) (hZ : Z ≤ 0) : (u.mul v).ub (g1 + g2) Z := by
   cases u with
   | nan => simp [ub] at h1
   | inf s =>
     simp only [ub] at h1; subst h1
     cases v with
-    | nan => simp [Bnd.mul] at hn
+    | nan => rcases hvn with h | ⟨p, h, _⟩ <;> cases h
     | inf t =>
       rcases hvn with h | ⟨p, h, _⟩
       · cases h; simp [Bnd.mul, ub]
       · cases h
     | fin q =>
       by_cases hc : q.c = 0
-      · simp [Bnd.mul, hc] at hn
+      · simp only [Bnd.mul, hc, if_true, ub]; rw [ofInt_zero_sc]; exact hZ
       · rcases hvn with h | ⟨p, h, hs⟩
         · cases h
         · cases h
@@ -195,7 +215,7 @@ theorem mul_ub_nonneg_left (u v : Bnd) (g1 g2 X Z : Int) (hu : u.okAt g1) (hv : 
     simp only [ub] at h1
     have ⟨hpc, hps⟩ := pos_of_sc_pos (p := p) (g := g1) (by omega)
     cases v with
-    | nan => simp [Bnd.mul] at hn
+    | nan => rcases hvn with h | ⟨p, h, _⟩ <;> cases h
     | inf t =>
       rcases hvn with h | ⟨p', h, _⟩
       · cases h; simp [Bnd.mul, hpc, hps, ub]
@@ -206,22 +226,22 @@ theorem mul_ub_nonneg_left (u v : Bnd) (g1 g2 X Z : Int) (hu : u.okAt g1) (hv : 
       have := Int.mul_nonneg (a := p.sc g1) (b := q.sc g2) (by omega) (hvn.sc g2)
       omega
 
-/-- (a non-negative upper bound) × (upper bound of a positive value), if not `nan`, is above every `Z ≤ 0` -/
+/-- (a non-negative upper bound) × (upper bound of a positive value) is above every `Z ≤ 0` -/
 theorem mul_ub_nonneg_right (u v : Bnd) (g1 g2 Y Z : Int) (hu : u.okAt g1) (hv : v.okAt g2) (hY : 0 < Y)
-    (h2 : v.ub g2 Y) (hun : NonNeg u) (hn : u.mul v ≠ .nan) (hZ : Z ≤ 0) : (u.mul v).ub (g1 + g2) Z := by
+    (h2 : v.ub g2 Y) (hun : NonNeg u) (hZ : Z ≤ 0) : (u.mul v).ub (g1 + g2) Z := by
   cases v with
   | nan => simp [ub] at h2
   | inf s =>
     simp only [ub] at h2; subst h2
     cases u with
-    | nan => simp [Bnd.mul] at hn
+    | nan => rcases hun with h | ⟨p, h, _⟩ <;> cases h
     | inf t =>
       rcases hun with h | ⟨p, h, _⟩
       · cases h; simp [Bnd.mul, ub]
       · cases h
     | fin q =>
       by_cases hc : q.c = 0
-      · simp [Bnd.mul, hc] at hn
+      · simp only [Bnd.mul, hc, if_true, ub]; rw [ofInt_zero_sc]; exact hZ
       · rcases hun with h | ⟨p, h, hs⟩
         · cases h
         · cases h
@@ -232,7 +252,7 @@ theorem mul_ub_nonneg_right (u v : Bnd) (g1 g2 Y Z : Int) (hu : u.okAt g1) (hv :
     simp only [ub] at h2
     have ⟨hpc, hps⟩ := pos_of_sc_pos (p := p) (g := g2) (by omega)
     cases u with
-    | nan => simp [Bnd.mul] at hn
+    | nan => rcases hun with h | ⟨p, h, _⟩ <;> cases h
     | inf t =>
       rcases hun with h | ⟨p', h, _⟩
       · cases h; simp [Bnd.mul, hpc, hps, ub]
@@ -266,22 +286,22 @@ theorem imul_nonpos {A B : Int} (hA : 0 ≤ A) (hB : B ≤ 0) : A * B ≤ 0 := b
   have := Int.mul_nonneg (a := A) (b := -B) hA (by omega)
   rw [Int.mul_neg] at this; omega
 
-/-- (upper bound of a positive value) × (a non-positive lower bound), if not `nan`, is below every `Z ≥ 0` -/
+/-- (upper bound of a positive value) × (a non-positive lower bound) is below every `Z ≥ 0` -/
 theorem mul_lb_nonpos_left (u v : Bnd) (g1 g2 X Z : Int) (hu : u.okAt g1) (hv : v.okAt g2) (hX : 0 < X)
-    (h1 : u.ub g1 X) (hvn : NonPos v) (hn : u.mul v ≠ .nan) (hZ : 0 ≤ Z) : (u.mul v).lb (g1 + g2) Z := by
+    (h1 : u.ub g1 X) (hvn : NonPos v) (hZ : 0 ≤ Z) : (u.mul v).lb (g1 + g2) Z := by
   cases u with
   | nan => simp [ub] at h1
   | inf s =>
     simp only [ub] at h1; subst h1
     cases v with
-    | nan => simp [Bnd.mul] at hn
+    | nan => rcases hvn with h | ⟨p, h, _⟩ <;> cases h
     | inf t =>
       rcases hvn with h | ⟨p, h, _⟩
       · cases h; simp [Bnd.mul, lb]
       · cases h
     | fin q =>
       by_cases hc : q.c = 0
-      · simp [Bnd.mul, hc] at hn
+      · simp only [Bnd.mul, hc, if_true, lb]; rw [ofInt_zero_sc]; exact hZ
       · rcases hvn with h | ⟨p, h, hs⟩
         · cases h
         · cases h
@@ -292,7 +312,7 @@ theorem mul_lb_nonpos_left (u v : Bnd) (g1 g2 X Z : Int) (hu : u.okAt g1) (hv : 
     simp only [ub] at h1
     have ⟨hpc, hps⟩ := pos_of_sc_pos (p := p) (g := g1) (by omega)
     cases v with
-    | nan => simp [Bnd.mul] at hn
+    | nan => rcases hvn with h | ⟨p, h, _⟩ <;> cases h
     | inf t =>
       rcases hvn with h | ⟨p', h, _⟩
       · cases h; simp [Bnd.mul, hpc, hps, lb]
@@ -303,22 +323,22 @@ theorem mul_lb_nonpos_left (u v : Bnd) (g1 g2 X Z : Int) (hu : u.okAt g1) (hv : 
       have := imul_nonpos (A := p.sc g1) (B := q.sc g2) (by omega) (hvn.sc g2)
       omega
 
-/-- (a non-negative upper bound) × (lower bound of a negative value), if not `nan`, is below every `Z ≥ 0` -/
+/-- (a non-negative upper bound) × (lower bound of a negative value) is below every `Z ≥ 0` -/
 theorem mul_lb_nonpos_right (u v : Bnd) (g1 g2 Y Z : Int) (hu : u.okAt g1) (hv : v.okAt g2) (hY : Y < 0)
-    (h2 : v.lb g2 Y) (hun : NonNeg u) (hn : u.mul v ≠ .nan) (hZ : 0 ≤ Z) : (u.mul v).lb (g1 + g2) Z := by
+    (h2 : v.lb g2 Y) (hun : NonNeg u) (hZ : 0 ≤ Z) : (u.mul v).lb (g1 + g2) Z := by
   cases v with
   | nan => simp [lb] at h2
   | inf s =>
     simp only [lb] at h2; subst h2
     cases u with
-    | nan => simp [Bnd.mul] at hn
+    | nan => rcases hun with h | ⟨p, h, _⟩ <;> cases h
     | inf t =>
       rcases hun with h | ⟨p, h, _⟩
       · cases h; simp [Bnd.mul, lb]
       · cases h
     | fin q =>
       by_cases hc : q.c = 0
-      · simp [Bnd.mul, hc] at hn
+      · simp only [Bnd.mul, hc, if_true, lb]; rw [ofInt_zero_sc]; exact hZ
       · rcases hun with h | ⟨p, h, hs⟩
         · cases h
         · cases h
@@ -329,7 +349,7 @@ theorem mul_lb_nonpos_right (u v : Bnd) (g1 g2 Y Z : Int) (hu : u.okAt g1) (hv :
     simp only [lb] at h2
     have ⟨hpc, hps⟩ := neg_of_sc_neg (p := p) (g := g2) (by omega)
     cases u with
-    | nan => simp [Bnd.mul] at hn
+    | nan => rcases hun with h | ⟨p, h, _⟩ <;> cases h
     | inf t =>
       rcases hun with h | ⟨p', h, _⟩
       · cases h; simp [Bnd.mul, hpc, hps, lb]
@@ -499,10 +519,10 @@ theorem mul_c_ne {x y : RF} (h : (x.mul y).c ≠ 0) : x.c ≠ 0 ∧ y.c ≠ 0 :=
   · rw [if_pos hz] at h; exact absurd rfl h
   · simpa using hz
 
-/-- **product of finite members** — provided the computed bounds are not `nan` (a zero bound
-times an unbounded one) and a `-0` product is covered by `has_neg_zero` of an operand. -/
+/-- **product of finite members** — provided a `-0` product is covered by the computed
+`has_neg_zero`. -/
 theorem mul_fin (a b c : AbsFmt) (ha : a.WF) (hb : b.WF) (h : a.mul b = .ok c)
-    (hcp : c.pos ≠ .nan) (hcn : c.neg ≠ .nan) (x y : RF) (hx : a.finMem x) (hy : b.finMem y)
+    (x y : RF) (hx : a.finMem x) (hy : b.finMem y)
     (hz : (x.mul y).c = 0 → (x.mul y).s = true → (a.negZero || b.negZero) = true) :
     c.finMem (x.mul y) := by
   obtain ⟨ps, po, hps, hpo, hc⟩ := mul_eq_ok h
@@ -533,10 +553,8 @@ theorem mul_fin (a b c : AbsFmt) (ha : a.WF) (hb : b.WF) (h : a.mul b = .ok c)
     have hNP := Bnd.mul_okAt a.neg b.pos g1 g2 han hbp
     have hcpos : c.pos = Bnd.max2 (a.pos.mul b.pos) (a.neg.mul b.neg) := by rw [hc]
     have hcneg : c.neg = Bnd.min2 (a.pos.mul b.neg) (a.neg.mul b.pos) := by rw [hc]
-    have hPPn : a.pos.mul b.pos ≠ .nan := by
-      intro h0; rw [hcpos, h0, Bnd.max2_nan_left] at hcp; exact hcp rfl
-    have hPNn : a.pos.mul b.neg ≠ .nan := by
-      intro h0; rw [hcneg, h0, Bnd.min2_nan_left] at hcn; exact hcn rfl
+    have hPPn : a.pos.mul b.pos ≠ .nan := Bnd.mul_ne_nan _ _ (wf_pos_ne_nan ha).1 (wf_pos_ne_nan hb).1
+    have hPNn : a.pos.mul b.neg ≠ .nan := Bnd.mul_ne_nan _ _ (wf_pos_ne_nan ha).1 (wf_pos_ne_nan hb).2
     -- bounds, by the signs of the two factors
     have hbounds : (c.pos.okAt (g1 + g2) ∧ c.pos.ub (g1 + g2) (x.sc g1 * y.sc g2)) ∧
         (c.neg.okAt (g1 + g2) ∧ c.neg.lb (g1 + g2) (x.sc g1 * y.sc g2)) := by
@@ -545,23 +563,23 @@ theorem mul_fin (a b c : AbsFmt) (ha : a.WF) (hb : b.WF) (h : a.mul b = .ok c)
       · by_cases hYpos : 0 < y.sc g2
         · have u := Bnd.mul_ub_pp a.pos b.pos g1 g2 _ _ hap hbp hXpos hYpos fx.2.2 fy.2.2
           have hZ : 0 ≤ x.sc g1 * y.sc g2 := Int.le_of_lt (Int.mul_pos hXpos hYpos)
-          have l := Bnd.mul_lb_nonpos_left a.pos b.neg g1 g2 _ _ hap hbn hXpos fx.2.2 hb.2.1 hPNn hZ
+          have l := Bnd.mul_lb_nonpos_left a.pos b.neg g1 g2 _ _ hap hbn hXpos fx.2.2 hb.2.1 hZ
           exact ⟨Bnd.max2_ub _ _ _ _ hPP hNN u.1 (Or.inl u.2), Bnd.min2_lb _ _ _ _ hPN hNP hPNn (Or.inl l)⟩
         · have hYneg : y.sc g2 < 0 := by omega
           have l := Bnd.mul_lb_pn a.pos b.neg g1 g2 _ _ hap hbn hXpos hYneg fx.2.2 fy.2.1
           have hZ : x.sc g1 * y.sc g2 ≤ 0 := Int.le_of_lt (Int.mul_neg_of_pos_of_neg hXpos hYneg)
-          have u := Bnd.mul_ub_nonneg_left a.pos b.pos g1 g2 _ _ hap hbp hXpos fx.2.2 hb.1 hPPn hZ
+          have u := Bnd.mul_ub_nonneg_left a.pos b.pos g1 g2 _ _ hap hbp hXpos fx.2.2 hb.1 hZ
           exact ⟨Bnd.max2_ub _ _ _ _ hPP hNN hPPn (Or.inl u), Bnd.min2_lb _ _ _ _ hPN hNP l.1 (Or.inl l.2)⟩
       · have hXneg : x.sc g1 < 0 := by omega
         by_cases hYpos : 0 < y.sc g2
         · have l := Bnd.mul_lb_np a.neg b.pos g1 g2 _ _ han hbp hXneg hYpos fx.2.1 fy.2.2
           have hZ : x.sc g1 * y.sc g2 ≤ 0 := Int.le_of_lt (Int.mul_neg_of_neg_of_pos hXneg hYpos)
-          have u := Bnd.mul_ub_nonneg_right a.pos b.pos g1 g2 _ _ hap hbp hYpos fy.2.2 ha.1 hPPn hZ
+          have u := Bnd.mul_ub_nonneg_right a.pos b.pos g1 g2 _ _ hap hbp hYpos fy.2.2 ha.1 hZ
           exact ⟨Bnd.max2_ub _ _ _ _ hPP hNN hPPn (Or.inl u), Bnd.min2_lb _ _ _ _ hPN hNP hPNn (Or.inr l.2)⟩
         · have hYneg : y.sc g2 < 0 := by omega
           have u := Bnd.mul_ub_nn a.neg b.neg g1 g2 _ _ han hbn hXneg hYneg fx.2.1 fy.2.1
           have hZ : 0 ≤ x.sc g1 * y.sc g2 := Int.le_of_lt (Int.mul_pos_of_neg_of_neg hXneg hYneg)
-          have l := Bnd.mul_lb_nonpos_right a.pos b.neg g1 g2 _ _ hap hbn hYneg fy.2.1 ha.1 hPNn hZ
+          have l := Bnd.mul_lb_nonpos_right a.pos b.neg g1 g2 _ _ hap hbn hYneg fy.2.1 ha.1 hZ
           exact ⟨Bnd.max2_ub _ _ _ _ hPP hNN hPPn (Or.inr u.2), Bnd.min2_lb _ _ _ _ hPN hNP hPNn (Or.inl l)⟩
     rw [finMem_iff c _ (g1 + g2) hrc hgr hbounds.1.1 hbounds.2.1, hprod.2]
     refine ⟨?_, hbounds.2.2, hbounds.1.2⟩
